@@ -4,7 +4,7 @@ set -u
 WT=/tmp/seed-rebase-wt
 git -C /repo worktree remove --force $WT 2>/dev/null
 git -C /repo worktree add --detach -q $WT HEAD
-for p in /verif/seeded/C*/m*/patch.diff; do
+for p in /verif/seeded/C*/*/patch.diff; do
   ( cd $WT && git checkout -q -- . && git clean -qfd
     if git apply --check "$p" 2>/dev/null; then exit 0; fi
     if git apply --3way "$p" >/dev/null 2>&1 && ! git diff --name-only --diff-filter=U | grep -q .; then
